@@ -255,8 +255,10 @@ def generator_checks(tier, seed):
         yield (f"distinct-streams:{name}", None if ok else f"{name}: two chains share a random stream")
         # deterministic in the seed and independent of the number of chains
         again = [tuple(g.random(4)) for g in _get_per_chain_rngs(mk(seed + 5), 2)]
+        alone = [tuple(g.random(4)) for g in _get_per_chain_rngs(mk(seed + 5), 1)]
         yield (f"chain-count-independence:{name}",
-               None if again == draws[:2] else f"{name}: per-chain streams depend on the number of chains")
+               None if again == draws[:2] and alone == draws[:1] else
+               f"{name}: per-chain streams depend on the number of chains ({len(alone)} / 2 / 4 chains requested)")
     # real HMC: sequential == parallel, and chain c unaffected by the other chains
     base = E.hmc_run(adapters=(), n_warm=3, n_main=3, nchain=3, n_process=1, trace_warm_up=True)
     par = E.hmc_run(adapters=(), n_warm=3, n_main=3, nchain=3, n_process=2, trace_warm_up=True)
@@ -285,8 +287,10 @@ def generator_checks(tier, seed):
     for bg in ("SFC64", "Philox", "MT19937"):
         c3 = E.hmc_run(adapters=(), n_warm=3, n_main=3, nchain=3, n_process=1, trace_warm_up=True, explicit_mom=True, bitgen=bg)
         c2 = E.hmc_run(adapters=(), n_warm=3, n_main=3, nchain=2, n_process=1, trace_warm_up=True, explicit_mom=True, bitgen=bg)
+        c1 = E.hmc_run(adapters=(), n_warm=3, n_main=3, nchain=1, n_process=1, trace_warm_up=True, explicit_mom=True, bitgen=bg)
         yield (f"hmc:chain-count-independence:explicit-momenta:{bg}",
-               None if c3["exception"] is None and c2.get("pos_rows") == c3.get("pos_rows", [])[:2] else
+               None if c3["exception"] is None and c2.get("pos_rows") == c3.get("pos_rows", [])[:2]
+               and c1.get("pos_rows") == c3.get("pos_rows", [])[:1] else
                f"real HMC ({bg}) chain outputs depend on how many other chains are run even with caller-supplied initial momenta")
     # whole generator state (buffered words included) carried across stages and processes
     for bg, smp, nw in (("Philox", "static", 5), ("PCG64", "random", 5), ("PCG64", "random", 4), ("SFC64", "random", 3)):
